@@ -1,6 +1,6 @@
 """C07 - request body streams deliver exactly the declared body: no loss, no over-read."""
 PROP = 'C07'
-LEAN_MODULES = ['FalconModel.WsgiStreamProofs', 'FalconModel.AsgiStreamProofs', 'FalconModel.AsgiHistory', 'FalconModel.StreamGlue', 'FalconModel.StreamGlueProofs']
+LEAN_MODULES = ['FalconModel.WsgiStreamProofs', 'FalconModel.AsgiStreamProofs', 'FalconModel.AsgiHistory', 'FalconModel.StreamGlue', 'FalconModel.StreamGlueProofs', 'FalconModel.StreamFault', 'FalconModel.StreamFaultProofs']
 DRIVERS = ['w7fdriver', 'asfdriver', 'sgdriver']
 THEOREMS = [
     # WSGI BoundedStream (falcon/stream.py), model Ws7F = the code after the F02/F03 repairs
@@ -21,8 +21,21 @@ THEOREMS = [
     'Sg.reqOps_eq', 'Sg.wsgi_request_stream_refines_cursor', 'Sg.wsgi_request_stream_from_header_text', 'Sg.wsgi_request_stream_no_usable_length', 'Sg.wsgi_request_exhaust',
     'Sg.areqOps_eq', 'Sg.absS_init_some', 'Sg.absS_init_none', 'Sg.asgi_request_history', 'Sg.asgi_request_stream_refines_cursor', 'Sg.asgi_request_stream_unbounded',
     'Sg.asgi_request_stream_invalid',
+    # transient faults of the server-side source inside an operation (falcon/stream.py, falcon/asgi/stream.py): Wf / Af = the state the code has when a call into
+    # wsgi.input raises / `await receive()` raises or is cancelled
+    'Wf.runOps_append', 'Wf.readlinesFaultLoop_reachable', 'Wf.exhaustFaultLoop_reachable', 'Wf.readlinesFault_step', 'Wf.exhaustFault_step', 'Wf.faultState_eq',
+    'Wf.first_call_faults_invisible', 'Wf.fault_history_refines_cursor',
+    'Af.read_fault_first_receive', 'Af.readall_fault_first_receive', 'Af.exhaust_fault_first_receive',
 ]
 STATEMENTS = {
+    'Wf.first_call_faults_invisible': 'WSGI: a history in which any number of read/readline/readlines/next operations were abandoned because their FIRST call into wsgi.input raised (nothing consumed) hands out the same bytes and ends in the same state as the history without those operations',
+    'Wf.fault_history_refines_cursor': 'hence for every such history: outputs = the next bytes of body[:Content-Length], exactly the rest remains, wsgi.input advanced by exactly the bytes handed out, budget >= 0',
+    'Wf.readlinesFault_step': 'a readlines abandoned at its (k+1)-th readline() leaves a stream that is still a cursor over the declared body standing behind the bytes X of the k lines already taken (X = [] for k = 0; for k > 0 those lines went down with the exception: documented class (c), not claimed delivered); wsgi.input advanced by exactly |X|, budget >= 0',
+    'Wf.exhaustFault_step': 'an exhaust abandoned at its (k+1)-th read leaves a cursor standing behind the X bytes it had discarded',
+    'Wf.readlinesFaultLoop_reachable': 'the state after an abandoned readlines is the state after a fault-free history of at most k readline() calls',
+    'Af.read_fault_first_receive': 'ASGI read(n), n > 0, that has to wait (budget > 0, residue shorter than n) and whose first receive() raises / is cancelled: the stream is exactly as before - buffered residue, budget, tell() - only receive() was awaited once more',
+    'Af.readall_fault_first_receive': 'readall() abandoned at its first receive(): as before except that the buffer is empty (no loss when there was no residue; with a residue that is documented class (a))',
+    'Af.exhaust_fault_first_receive': 'exhaust() abandoned at its first receive(): the residue was discarded and counted in tell(), nothing else changed',
     'AsF.history_refines': 'ASGI: from a fresh stream whose events contain the end of the body, after ANY sequence of read(n) (any integer n) / read() / readall() / exhaust() / async-for abandoned after any number of chunks: consumed ++ still-to-come = declared body, tell() advanced by exactly |consumed|, the bytes handed to the app in call order are a prefix of consumed (all of it without exhaust), and no operation blocked on receive()',
     'Ws7F.history_refines_cursor': 'for every history of read/readline/readlines/next with any size arguments, every body, declared length and short-read oracle: the concatenated outputs are the next bytes of raw[:Content-Length], exactly the rest remains, the raw stream advanced by exactly that much, budget stays >= 0',
     'Ws7F.never_overreads': 'after any history, total returned <= Content-Length and the raw stream position = bytes returned (nothing beyond the declared length was consumed)',
@@ -49,11 +62,21 @@ STATEMENTS = {
 }
 TRUSTED = [
     'raw file-object semantics of wsgi.input (read/readline with a short-read oracle) as modelled in WsgiStreamFixed.Raw',
+    'a faulting source call consumes/delivers nothing (raise-before-consuming; a cancelled receive() delivered no event); cancellation is injected at the one suspension point of the scripted receive()',
     'the scripted receive() raises a BaseException when it has nothing left to deliver: that is the "would block" outcome (no timeouts involved)',
     "Python int() on Latin-1 str / bytes as modelled by C09's Hp.pyIntW (tied by the C09 correspondence and again here by 'request glue = Sg model'); header texts of more than 4300 digits (CPython's int-conversion limit) are not generated",
     'the WSGI environ / the ASGI scope are what the server made of the request line and header block (duplicate-header policy, Transfer-Encoding precedence are the server\'s); the glue model starts from environ / scope[headers]',
 ]
 ASSUMPTIONS = [
+    'TRANSIENT SOURCE FAULTS (wsgi.input.read/readline raising without consuming, receive() raising, the read cancelled / timed out while parked in receive(); the application goes on using the stream) are not in the '
+    'property\'s stated quantifier; they are generated at every call index of the source, and JUDGED where the abandoned operation had taken nothing from the server that it still held only in a local: a fault at the '
+    'operation\'s FIRST source call (WSGI read/readline/next/readlines/exhaust/iteration step; ASGI read(n>0) with or without buffered residue; ASGI readall()/read()/read(-1) with an empty buffer) and iteration / exhaust at ANY call. '
+    'Three classes where the unchanged code (c86a3b1) drops data an abandoned operation had already taken are generated, counted (open_finding_class_*), compared with the model (Wf/Af express exactly that state) but judged '
+    'only with C07_MIDOP_FAULTS=1 (coordinator: an observation outside the property, documented non-claims): '
+    '(a) ASGI readall()/read()/read(-1) with a buffered residue, fault at its first receive - BoundedStream(receive, first_event={body: b"0123", more_body: True}, content_length=10), then b"4567"(more), b"89"(final), receive() raises on call 1: '
+    '[readall -> raises; readall] returns b"456789", eof, tell 6; '
+    '(b) ASGI read(n)/readall, fault at the 2nd+ receive of the operation - content_length=10, events b"0123"(more), b"4567"(more), b"89"(final), no first_event, receive() raises on call 2: [read(6) -> raises; readall] returns b"456789", eof, tell 6; '
+    '(c) WSGI readlines, fault at its 2nd+ readline - BoundedStream(b"a\\nb\\nc\\n", 6), readline raises on call 2: [readlines() -> raises; read()] returns b"b\\nc\\n", eof',
     'sizes passed to read/readline/readlines are None or ints; a stream constructed directly (not through the request) is given Content-Length >= 0 - through the request that is proved (Sg.wsgi_bound_nonneg, Sg.asgi_bound)',
     'the Content-Length text is a Latin-1 str (WSGI, PEP 3333) / a byte string (ASGI); ASGI header names arrive lower-cased (ASGI spec); environ values other than str are not modelled',
     'close()/closed-stream errors of the ASGI stream are covered by the correspondence and oracle only (guard tests, no theorem); a second iteration while one is suspended is in the history theorem (it answers notAllowed and changes nothing)',
@@ -66,8 +89,14 @@ RULE = ('random bodies over {a,b,c,\\n} (len 0..20) x Content-Length in {absent,
         'these cases are also replayed on the request-level model (sgdriver: header text -> bound -> stream -> the same operations); plus glue-only cases (random header texts up to 25 digits with random '
         'insertions, duplicate content-length entries, repeated other headers, WebSocket scopes) comparing the bound the real stream was built with; '
         'every byte string handed out (read/readline/next results, readlines items and the list, ASGI read/readall results and iteration chunks) must be exactly a bytes (type(x) is bytes, not ==); '
-        'plus, for the WSGI stream, ALL histories of length <= 3 (quick) / <= 4 (thorough) over a 7-operation alphabet on 18 (body, Content-Length, short-read) combinations; non-trivial = at least one operation returned data; distinct = distinct (stream kind, construction line, op list)')
-PARTIAL = ''
+        'plus, for the WSGI stream, ALL histories of length <= 3 (quick) / <= 4 (thorough) over a 7-operation alphabet on 18 (body, Content-Length, short-read) combinations; non-trivial = at least one operation returned data; distinct = distinct (stream kind, construction line, op list); '
+        'plus SOURCE-FAULT histories on both stacks (5000 quick / 60000 thorough each): 1-3 fault positions = call indices 1..8 of wsgi.input.read/readline resp. receive() counted over the whole history, kind = raise before consuming '
+        '(7 WSGI / 5 ASGI exception classes incl. a BaseException) or, on ASGI, task.cancel() / asyncio.wait_for expiring while the operation is parked in receive(); 2-7 operations over read(n)/read()/readline/readlines/next/for-loop/exhaust (WSGI) and '
+        'read(n)/read()/read(-1)/readall/async-for/exhaust (ASGI) with the application continuing after the exception, then reading to the end; bodies to 20 (16) bytes, Content-Length exact/shorter/longer/absent, short reads, events of 0..10 bytes so that sized '
+        'reads leave a residue, disconnects, a third through the request object; the state after every (also every abandoned) operation is compared with the Wf / Af fault models; non-trivial there = a fault was reached and data was returned')
+PARTIAL = ('source faults: the fault-state models Wf/Af are tied by the correspondence for every operation kind and call index, but proved only for first-call faults (WSGI: whole histories, Wf.fault_history_refines_cursor; ASGI: the '
+           'single-operation state lemmas Af.*_fault_first_receive, not lifted into AsF.history_refines; iteration / exhaust faults at later calls and the cancel-vs-raise equivalence are oracle + correspondence only); the loss classes (a)-(c) '
+           'listed in ASSUMPTIONS are not claimed (judged only with C07_MIDOP_FAULTS=1)')
 JOBS = {'quick': 4, 'thorough': 16}
 
 
@@ -109,6 +138,8 @@ def run(ctx):
     _wsgi(ctx)
     _asgi(ctx)
     _glue(ctx)
+    _wsgi_faults(ctx)
+    _asgi_faults(ctx)
 
 
 # ------------------------------------------------------------------ WSGI
@@ -603,6 +634,346 @@ def _glue(ctx):
         ctx.count('glue_asgi_' + (outcome or 'none'))
     sg.finish()
 
+# ------------------------------------------------------------------ transient faults of the server-side source inside a history
+
+def _midop_judged():
+    """The three loss classes of the unchanged tree that were reported to the coordinator (see ASSUMPTIONS) are generated and counted always, judged only with C07_MIDOP_FAULTS=1."""
+    import os
+    return os.environ.get('C07_MIDOP_FAULTS') == '1'
+
+
+class _GreenletTimeout(BaseException):
+    """What gevent.Timeout is: thrown into the reader from outside, not an Exception."""
+
+
+def _wsgi_faults(ctx):
+    """WSGI: wsgi.input.read()/readline() RAISES on chosen call indices (counted over the whole history) WITHOUT consuming anything - a socket timeout, EINTR, gevent.Timeout -
+    the application catches it and CONTINUES to use the stream.  Oracle (statement only; `acct` = bytes returned in call order + what exhaust discarded): acct is a prefix of
+    body[:CL]; the server stream stands exactly behind acct (nothing taken and not handed out, nothing beyond CL); eof <=> len(acct) = CL; sizes respected; and after the
+    history one more read() hands out exactly the rest."""
+    import io
+    from runner import alarm, Hang, hx
+    import falcon
+    import falcon.testing as ft
+    from falcon.stream import BoundedStream
+    rnd = ctx.rng
+    EXC = [TimeoutError, OSError, BlockingIOError, InterruptedError, ConnectionResetError, ValueError, _GreenletTimeout]
+
+    class FRaw(io.BytesIO):
+        def __init__(s, data, shorts, faults, exc):
+            super().__init__(data); s.shorts = list(shorts); s.faults = set(faults); s.exc = exc; s.calls = 0; s.asked = []; s.maxpos = 0; s.fired = []
+        def _gate(s, n):
+            s.calls += 1
+            if s.calls in s.faults:
+                s.faults.discard(s.calls); s.fired.append(s.calls)
+                raise s.exc('transient fault of wsgi.input (nothing consumed)')
+            s.asked.append(n)
+        def read(s, n=-1):
+            s._gate(n)
+            if s.shorts:
+                c = s.shorts.pop(0)
+                if c:
+                    want = len(s.getvalue()) - s.tell() if (n is None or n < 0) else n
+                    r = super().read(min(c, want)); s.maxpos = max(s.maxpos, s.tell()); return r
+            r = super().read(n); s.maxpos = max(s.maxpos, s.tell()); return r
+        def readline(s, n=-1):
+            s._gate(n); r = super().readline(n); s.maxpos = max(s.maxpos, s.tell()); return r
+
+    sess = ctx.session('wsgi source faults = Wf model (state after an operation abandoned at a raising wsgi.input call)', 'w7fdriver')
+    oname = 'wsgi, source faults: after wsgi.input raised (nothing consumed) and the app went on: outputs still a prefix of body[:CL], nothing lost or duplicated, eof <=> whole body, no over-read, the rest is still delivered'
+    for ci in range(ctx.n(5000, 60000)):
+        L = rnd.choice([0, 1, 3, 6, 10, 15, 20])
+        data = bytes(rnd.choice(b'ab\n\n') for _ in range(L))
+        cl = rnd.choice([L, L, L, max(0, L - 2), max(0, L - 5), L + 3])
+        shorts = [rnd.choice([0, 0, 1, 2]) for _ in range(rnd.randint(0, 4))]
+        faults = sorted(set(rnd.randint(1, rnd.choice([1, 2, 3, 5, 8])) for _ in range(rnd.choice([1, 1, 2, 3]))))
+        exc = rnd.choice(EXC)
+        raw = FRaw(data, shorts, faults, exc)
+        via_req = rnd.random() < 0.33
+        if via_req:
+            env = ft.create_environ(method='POST', path='/')
+            env['CONTENT_LENGTH'] = str(cl); env['wsgi.input'] = raw
+            req = falcon.Request(env)
+        else:
+            s0 = BoundedStream(raw, cl)
+        decl = data[:cl]; acct = b''; hist = []; failed = None; nontriv = False; open_class = None; nfault = 0
+        sess.case({'via_request': via_req, 'faults': faults}); sess.op(f"new {cl} {hx(data)} {','.join(map(str, shorts)) or '-'}", 'ok')
+        fm = lambda n: 'none' if n is None else n      # noqa: E731
+
+        def st():
+            return f" rem={s._bytes_remaining} eof={'true' if s.eof else 'false'} asked={raw.asked}"
+        ops = []
+        for _ in range(rnd.randint(2, 7)):
+            op = rnd.choice(['read', 'read', 'read', 'readline', 'readline', 'readlines', 'next', 'iter', 'exhaust'])
+            n = {'read': [None, -1, 0, 1, 2, 5, 100], 'readline': [None, -1, 0, 1, 3, 100], 'readlines': [None, -1, 0, 2, 100], 'next': [None], 'iter': [1, 2, 3, 99], 'exhaust': [1, 4, 65536]}[op]
+            ops.append((op, rnd.choice(n)))
+        for op, n in ops:
+            s = req.bounded_stream if via_req else s0
+            hist.append([op, n]); c0 = raw.calls; p0 = raw.tell(); part = []; emits = []
+            faulted = False
+            try:
+                with alarm(3):
+                    if op == 'read':
+                        d = s.read(n); part.append(d); emits.append((f'read {fm(n)}', 'data ' + hx(d) + st()))
+                        if n is not None and n >= 0 and len(d) > n: failed = f'read({n}) returned {len(d)} bytes'
+                    elif op == 'readline':
+                        d = s.readline(n); part.append(d); emits.append((f'readline {fm(n)}', 'data ' + hx(d) + st()))
+                        if n is not None and n >= 0 and len(d) > n: failed = f'readline({n}) returned {len(d)} bytes'
+                        if b'\n' in d[:-1]: failed = 'readline returned more than one line'
+                    elif op == 'readlines':
+                        part.extend(s.readlines(n)); emits.append((f'readlines {fm(n)}', ('lines ' + ' '.join(hx(x) for x in part)).replace('lines  ', 'lines ') + st()))
+                    elif op == 'next':
+                        try:
+                            part.append(next(s)); emits.append(('next', 'data ' + hx(part[-1]) + st()))
+                        except StopIteration: emits.append(('next', 'stop' + st()))
+                    elif op == 'iter':
+                        k = 0
+                        for line in s:                 # every line is in the application's hands as soon as it is yielded
+                            part.append(line); k += 1; emits.append(('next', 'data ' + hx(line) + st()))
+                            if k >= n: break
+                        else:
+                            emits.append(('next', 'stop' + st()))
+                    else:
+                        s.exhaust(n); emits.append((f'exhaust {n}', 'unit' + st()))
+            except Hang:
+                failed = f'{op} did not return (hang)'
+            except exc:
+                faulted = True; nfault += 1; hist[-1].append(f'wsgi.input call #{raw.fired[-1]} raised {exc.__name__}')
+                kdone = raw.calls - c0 - 1          # source calls of this operation that had returned before the one that raised
+                emits.append(({'read': f'fault read {fm(n)}', 'readline': f'fault readline {fm(n)}', 'next': 'fault next', 'iter': 'fault next',
+                               'readlines': f'fault readlines {fm(n)} {kdone}', 'exhaust': f'fault exhaust {n} {kdone}'}[op], 'fault' + st()))
+                ctx.count('wsgi_fault_in_' + op); ctx.count('wsgi_fault_at_op_call_' + str(min(raw.calls - c0, 3)) + ('+' if raw.calls - c0 >= 3 else ''))
+            except Exception as e:  # noqa
+                failed = f'{op} raised {type(e).__name__}: {e}'
+            for l_, r_ in emits: sess.op(l_, r_)
+            if failed: break
+            if any(type(x) is not bytes for x in part): failed = f'{op} handed out {[type(x).__name__ for x in part]}, not bytes'; break
+            if op == 'exhaust':
+                acct += data[p0:raw.tell()]                 # what exhaust took from the server is discarded, faulted or not
+                if not faulted and not s.eof and len(data) >= cl: failed = 'eof is False after exhaust() although the whole declared body was available'
+            else:
+                acct += b''.join(part)
+            if faulted and op == 'readlines' and raw.calls - c0 >= 2:
+                # open finding (c): the lines collected before the failing readline() go down with the exception
+                open_class = 'wsgi_readlines_fault_after_first_line'; ctx.count('open_finding_class_c_' + open_class)
+                if not _midop_judged(): break
+            nontriv = nontriv or bool(acct)
+            if failed is None:
+                if not decl.startswith(acct): failed = 'returned bytes are not a prefix of body[:Content-Length]'
+                elif raw.maxpos > cl: failed = f'raw stream consumed to {raw.maxpos} > Content-Length {cl}'
+                elif any((a is None or a < 0 or a > cl) for a in raw.asked): failed = f'raw stream asked for {raw.asked} with Content-Length {cl}'
+                elif raw.tell() != len(acct): failed = f'wsgi.input stands at {raw.tell()} but {len(acct)} bytes were handed out/discarded (bytes taken from the server and lost)'
+                elif s.eof != (len(acct) >= cl): failed = f'eof = {s.eof} after {len(acct)} of {cl} declared bytes' + (' (right after the faulted call: nothing was consumed by it)' if faulted else '')
+            if failed: break
+        if failed is None and (open_class is None or _midop_judged()):
+            raw.faults.clear()
+            s = req.bounded_stream if via_req else s0
+            try:
+                with alarm(3):
+                    while True:             # (short reads: read() may need several calls)
+                        d = s.read(); sess.op('read none', 'data ' + hx(d) + st())
+                        if not d: break
+                        acct += d
+            except Exception as e:  # noqa
+                failed = f'final read() raised {type(e).__name__}: {e}'
+            hist.append(['finally: read() until empty'])
+            if failed is None and acct != decl: failed = f'after the history, reading on delivered {len(acct)} of {len(decl)} available declared bytes in total: the stream ended early / has a hole'
+            elif failed is None and raw.maxpos > cl: failed = f'raw stream consumed to {raw.maxpos} > Content-Length {cl}'
+        ctx.oracle(oname, failed is None, failed, {'stream': 'wsgi', 'body': data, 'content_length': cl, 'shorts': shorts, 'fault_at_wsgi_input_calls': faults, 'exception': exc.__name__,
+                                                   'history': hist, 'via_request': via_req})
+        ctx.seen(('wf', data, cl, str(shorts), str(faults), str(hist)), nontriv and nfault > 0)
+        ctx.count('wsgi_fault_case_' + ('no_fault_reached' if nfault == 0 else 'one_fault' if nfault == 1 else 'several_faults'))
+    sess.finish()
+
+
+def _asgi_faults(ctx):
+    """ASGI: receive() RAISES once on chosen call indices, or the application's operation is CANCELLED (task.cancel() / asyncio.wait_for) while parked in receive() -
+    nothing was delivered by that call - and the application CONTINUES to use the stream.  Oracle (statement only; `acct` = bytes returned in call order, after an exhaust
+    everything the server had delivered so far): acct is a prefix of the declared body, tell() = len(acct), read(n) <= n, eof => the whole declared body, receive() is never
+    awaited once Content-Length bytes / the final event / a disconnect were delivered, and after the history readall() hands out exactly the rest."""
+    import asyncio
+    from runner import hx
+    import falcon.asgi
+    import falcon.testing as ft
+    from falcon.asgi.stream import BoundedStream
+    from falcon.errors import OperationNotAllowed
+    rnd = ctx.rng
+    EXC = [TimeoutError, OSError, ConnectionResetError, RuntimeError, asyncio.IncompleteReadError]
+
+    def enc(e):
+        if e['type'] == 'http.disconnect': return 'D'
+        return f"R:{'~' if 'body' not in e else hx(e['body'])}:{'n' if 'more_body' not in e else ('t' if e['more_body'] else 'f')}"
+
+    class _WouldBlock(BaseException):
+        pass
+
+    sess = ctx.session('asgi source faults = Af model (state after an operation abandoned at a raising / cancelled receive())', 'asfdriver')
+    oname = 'asgi, source faults: after receive() raised / the read was cancelled while parked in receive() and the app went on: outputs still a prefix of the declared body, no hole, tell = bytes returned, whole body at eof, no receive() beyond the end'
+
+    async def one():
+        L = rnd.choice([0, 1, 3, 6, 10, 16])
+        body = bytes(rnd.choice(b'abc\n') for _ in range(L))
+        evs = []; i = 0
+        while i < L:
+            k = rnd.choice([0, 1, 2, 3, 5, 10]); evs.append(body[i:i + k]); i += k
+        if not evs or rnd.random() < 0.3: evs.append(b'')
+        events = []
+        for j, c in enumerate(evs):
+            e = {'type': 'http.request'}
+            if c or rnd.random() < 0.7: e['body'] = c
+            if j < len(evs) - 1: e['more_body'] = True
+            elif rnd.random() < 0.3: e['more_body'] = False
+            events.append(e)
+        disc = None
+        if rnd.random() < 0.2:
+            disc = rnd.randint(1, len(events)); events = events[:disc] + [{'type': 'http.disconnect'}]
+            events[disc - 1]['more_body'] = True
+        cl = rnd.choice([None, L, L, L, max(0, L - 2), L + 3])
+        via_req = rnd.random() < 0.33
+        first = events[0] if (via_req or rnd.random() < 0.7) else None
+        q = list(events[1:]) if first is not None else list(events)
+        plan = {}
+        for _ in range(rnd.choice([1, 1, 2, 3])):
+            plan[rnd.randint(1, rnd.choice([1, 2, 3, 5, 8]))] = rnd.choice(['raise', 'raise', 'cancel', 'timeout'])
+        plan0 = dict(plan); exc = rnd.choice(EXC)
+        calls = [0]; parked = [False]; ended = [first is not None and (first['type'] != 'http.request' or not first.get('more_body', False))]
+        taken = [len(first.get('body', b'')) if first is not None and first['type'] == 'http.request' else 0]
+        overask = []; raised = []
+
+        async def receive():
+            calls[0] += 1
+            if ended[0] or (cl is not None and taken[0] >= cl):
+                overask.append(calls[0])
+            kind = plan.pop(calls[0], None)
+            if kind == 'raise':
+                raised.append(exc('transient fault of receive() (nothing delivered)') if exc is not asyncio.IncompleteReadError else exc(b'', 1))
+                raise raised[-1]
+            if kind is not None:
+                parked[0] = True
+                await asyncio.get_running_loop().create_future()       # nothing arrives; the application gives up waiting (this call delivers nothing)
+            if not q: raise _WouldBlock()
+            e = q.pop(0)
+            if e['type'] != 'http.request' or not e.get('more_body', False): ended[0] = True
+            if e['type'] == 'http.request': taken[0] += len(e.get('body', b''))
+            return e
+
+        async def app_call(coro, style):
+            """Run one stream operation the way an application with a deadline would: as a task that is cancelled when it is found parked in receive()
+            (style 'cancel'), or under asyncio.wait_for with a deadline that has passed by the time the operation first has to wait (style 'timeout')."""
+            if style == 'timeout':
+                return await asyncio.wait_for(coro, 1e-9)
+            t = asyncio.ensure_future(coro)
+            for _ in range(200):
+                if t.done() or parked[0]: break
+                await asyncio.sleep(0)
+            if not t.done(): t.cancel()
+            return await t
+
+        if via_req:
+            scope = ft.create_scope(method='POST', path='/')
+            hl = [h for h in (tuple(x) for x in scope['headers']) if h[0] != b'content-length']
+            if cl is not None: hl.append((b'content-length', str(cl).encode()))
+            scope['headers'] = hl
+            req = falcon.asgi.Request(scope, receive, first_event=first)
+        else:
+            s0 = BoundedStream(receive, first_event=first, content_length=cl)
+        recv = b''
+        for e in events:
+            if e['type'] != 'http.request': break
+            recv += e.get('body', b'')
+            if not e.get('more_body', False): break
+        declared = recv if cl is None else recv[:cl]
+        complete = any(e['type'] == 'http.disconnect' or not e.get('more_body', False) for e in events) or (cl is not None and len(recv) >= cl)
+        styles = [k for k in plan.values() if k != 'raise']
+        style = 'timeout' if 'timeout' in styles else 'cancel'
+        acct = b''; hist = []; failed = None; nfault = 0; open_class = None; blocked = False
+        sess.case({'via_request': via_req, 'faults': plan0})
+        sess.op(f"new {'none' if cl is None else cl} {'none' if first is None else enc(first)} " + ' '.join(enc(e) for e in q), 'ok')
+
+        def st():
+            return f" tell={s.tell()} eof={'true' if s.eof else 'false'} awaited={calls[0]}"
+
+        def deliv():
+            return min(taken[0], len(declared))
+        for _ in range(rnd.randint(2, 7)):
+            s = req.stream if via_req else s0
+            op = rnd.choice(['read', 'read', 'read', 'read_all', 'readall', 'iter', 'exhaust'])
+            c0 = calls[0]; residue = deliv() - len(acct); part = []; faulted = None; parked[0] = False
+            try:
+                if op == 'read':
+                    n = rnd.choice([0, 1, 2, 5, 100]); hist.append(['read', n]); line = f'read {n}'
+                    d = await app_call(s.read(n), style); part.append(d); sess.op(line, 'data ' + hx(d) + st())
+                    if len(d) > n: failed = f'read({n}) returned {len(d)} bytes'
+                elif op == 'read_all':
+                    n = rnd.choice([None, -1]); hist.append(['read', n]); line = f"read {'none' if n is None else n}"
+                    part.append(await app_call(s.read(n), style)); sess.op(line, 'data ' + hx(part[-1]) + st())
+                elif op == 'readall':
+                    hist.append(['readall']); line = 'readall'; part.append(await app_call(s.readall(), style)); sess.op(line, 'data ' + hx(part[-1]) + st())
+                elif op == 'iter':
+                    k = rnd.choice([1, 2, 3, 99]); hist.append(['iter', k]); line = f'iter {k}'
+
+                    async def it():
+                        c = 0
+                        async for ch in s:              # every chunk is in the application's hands as soon as it is yielded
+                            part.append(ch); c += 1
+                            if c >= k: break
+                    await app_call(it(), style); sess.op(line, 'data ' + hx(b''.join(part)) + st())
+                else:
+                    hist.append(['exhaust']); line = 'exhaust'; await app_call(s.exhaust(), style); sess.op(line, 'unit' + st())
+                    if not s.eof: failed = 'eof is False after exhaust()'
+            except _WouldBlock:
+                blocked = True; sess.op(line, 'BLOCKED')
+                if complete: failed = f'{op} blocked on receive() although the server had delivered the end of the body / a disconnect'
+            except OperationNotAllowed:
+                hist[-1].append('OperationNotAllowed'); sess.op(line, 'notAllowed' + st()); ctx.count('asgi_fault_history_iteration_refused_after_aborted_iteration')
+            except BaseException as e_:
+                if raised and e_ is raised[-1]: faulted = 'raise'
+                elif parked[0] and isinstance(e_, asyncio.CancelledError): faulted = 'cancelled while parked in receive()'
+                elif parked[0] and isinstance(e_, TimeoutError): faulted = 'wait_for timed out while parked in receive()'
+                else: raise
+            if faulted:
+                nfault += 1; j = calls[0] - c0; sess.op(f'fault {j} {line}', 'fault' + st()); hist[-1].append(f'receive() call #{calls[0]}: {faulted}' + (f' {exc.__name__}' if faulted == 'raise' else ''))
+                ctx.count('asgi_fault_in_' + op); ctx.count('asgi_fault_kind_' + faulted.split(' ')[0] + ('_' + faulted.split(' ')[1] if faulted != 'raise' else ''))
+                ctx.count('asgi_fault_at_op_call_' + ('1' if j == 1 else '2+') + ('_with_residue' if residue > 0 else ''))
+                if op in ('read', 'read_all', 'readall') and j >= 2:
+                    open_class = 'b_asgi_read_fault_after_first_receive_of_the_operation'
+                elif op in ('read_all', 'readall') and residue > 0:
+                    open_class = 'a_asgi_readall_fault_with_buffered_residue'
+                if open_class: ctx.count('open_finding_class_' + open_class)
+            if failed or blocked: break
+            if any(type(x) is not bytes for x in part): failed = f'{op} handed out {[type(x).__name__ for x in part]}, not bytes'; break
+            if open_class and not _midop_judged(): break
+            acct += b''.join(part)
+            if op == 'exhaust' and declared.startswith(acct):
+                acct = declared[:max(len(acct), deliv())]                    # what the server had delivered by now is discarded, faulted or not
+            if not declared.startswith(acct): failed = 'returned bytes are not a prefix of the declared body'
+            elif s.tell() != len(acct): failed = f'tell() = {s.tell()} but {len(acct)} bytes were returned/discarded'
+            elif s.eof and complete and acct != declared: failed = f'eof reported after {len(acct)} of {len(declared)} declared bytes'
+            elif overask: failed = f'receive() awaited (call #{overask[0]}) after the server had delivered Content-Length bytes / the final event / a disconnect'
+            if failed: break
+        if failed is None and not blocked and (open_class is None or _midop_judged()):
+            plan.clear(); s = req.stream if via_req else s0
+            hist.append(['finally: readall()'])
+            try:
+                d = await s.readall(); acct += d; sess.op('readall', 'data ' + hx(d) + st())
+                if acct != declared: failed = f'after the history, readall() completes the output to {len(acct)} of {len(declared)} declared bytes: hole / early end / duplicate'
+                elif s.tell() != len(acct) or not s.eof: failed = f'after the final readall(): tell() = {s.tell()}, eof = {s.eof}, {len(acct)} bytes returned'
+                elif overask: failed = f'receive() awaited (call #{overask[0]}) after the end of the body'
+            except _WouldBlock:
+                sess.op('readall', 'BLOCKED')
+                if complete: failed = 'final readall() blocked on receive() although the server had delivered the end of the body / a disconnect'
+        ctx.oracle(oname, failed is None, failed, {'stream': 'asgi', 'events': [enc(e) for e in events], 'content_length': cl, 'first_event_given': first is not None,
+                                                   'fault_at_receive_calls': plan0, 'exception': exc.__name__, 'history': hist, 'via_request': via_req})
+        ctx.seen(('af', str([enc(e) for e in events]), cl, first is not None, str(plan0), str(hist)), bool(acct) and nfault > 0)
+        ctx.count('asgi_fault_case_' + ('no_fault_reached' if nfault == 0 else 'one_fault' if nfault == 1 else 'several_faults'))
+
+    async def main():
+        for _ in range(ctx.n(5000, 60000)):
+            await one()
+    asyncio.run(main())
+    sess.finish()
+
+
 LEVEL_TEXT = ('Machine-checked refinement proofs (Lean 4): the WSGI BoundedStream model refines a flat cursor over body[:Content-Length] for every history of '
               'read/readline/readlines/next/exhaust, every body, declared length and short-read pattern (history_refines_cursor, never_overreads); the ASGI '
               'BoundedStream model does so for read(n)/readall/exhaust/iteration-with-abandonment over every event shape, chunking and disconnect position. '
@@ -612,7 +983,9 @@ LEVEL_TEXT = ('Machine-checked refinement proofs (Lean 4): the WSGI BoundedStrea
               'so the statement holds end to end from the header text (wsgi_/asgi_request_stream_refines_cursor). '
               'The hand-written models are tied to falcon/stream.py, falcon/asgi/stream.py, falcon/request.py and falcon/asgi/request.py on every run by differential correspondences '
               '(same op lines to the real classes and to the compiled models; via falcon.Request / falcon.asgi.Request the header text, environ / scope headers go to the request-level model), '
-              'and independent oracles written from the statement decide failing inputs.')
+              'and independent oracles written from the statement decide failing inputs. Transient faults of the server-side source inside a history (wsgi.input / receive() raising once, a read cancelled while parked in receive(), '
+              'the application continuing) are generated at every call index, judged by the statement oracle on the domain given in ASSUMPTIONS, and the state after the abandoned operation is compared with the Wf / Af fault models '
+              '(first-call faults proved invisible on WSGI).')
 LEVEL_NOTE = ('Trusted: Lean kernel + standard axioms; the correspondence harness and oracle; file-object semantics of wsgi.input as modelled; Python int() as modelled by Hp.pyIntW; '
               'the server-made environ / scope. close()/closed-stream and second-iteration guards are carried by correspondence+oracle only.')
 TECHNIQUE = 'Lean 4 refinement proof (stream model -> flat cursor) + differential correspondence model vs. real code + statement oracle'
